@@ -112,16 +112,18 @@ def fresh_theta(rng, params, cplx, signed):
 
 def run_scenario(run: Run, scen: dict, rng: random.Random):
     spec, semiring = scen["spec"], scen["semiring"]
+    pctx: dict = {}
     try:
-        chain = pipelines.build_pipeline(spec, scen.get("ops", []))
+        chain = pipelines.build_pipeline(spec, scen.get("ops", []), pctx)
     except pipelines.Refused:
         return
+    others = pctx.get("others", [])
     sc = chain[-1]
     base_sc = chain[0]
     cplx = common.spec_is_complex(spec)
     signed = scen["class"] in ("emb_poly_signed", "complex")
     params = ser.tensor_params(base_sc)  # learnable tensors live in the base circuit; derived ones reference them
-    for c in chain[1:]:
+    for c in others + chain[1:]:
         for n in ser.tensor_params(c):
             if all(n is not m for m in params):
                 params.append(n)
@@ -133,7 +135,7 @@ def run_scenario(run: Run, scen: dict, rng: random.Random):
             try:
                 comp = real.TorchCompiler(semiring=semiring, fold=fold, optimize=opt)
                 with foldcert.spy() as recs:
-                    for c in chain:
+                    for c in others + chain:
                         tc = comp.compile(c)
                     if fold and recs:
                         fold_recs[(fold, opt)] = recs[-1]
@@ -222,6 +224,14 @@ def check(run: Run, tier: str, seed: int):
             # squares of circuits with one-unit layers: Kronecker-parameterised sum layers (tensor-dot rewrite)
             spec = gen.gen_spec(srng, **dict(o, units=[1, 1, 2], nv=srng.choice([1, 2, 3])))
             ops = [{"op": "square"}]
+        if i % 6 == 2 and cls != "expfam":
+            # squares of circuits whose sibling sum layers share a weight shape but not the (arity, units) split:
+            # index parameters of equal shape and different index lists end up in one fold group
+            spec = gen.sibling_sums_spec(srng, cplx=cls == "complex", signed=cls != "emb_real")
+            other = gen.sibling_sums_spec(srng, cplx=cls == "complex", signed=cls != "emb_real",
+                                          splits=[tuple(x) for x in reversed(spec["splits"])], vs=spec["vars"],
+                                          states={int(k): v for k, v in spec["states"].items()})
+            ops = [{"op": "multiply", "other": other}]
         feats = gen.spec_features(spec)
         nontrivial = feats["had"] + feats["kron"] > 0 and any(d["t"] == "sum" for d in spec["layers"])
         semiring = srng.choice(semirings)
